@@ -33,7 +33,10 @@ def match_known(known, prop, fn, cell_id, label, region):
             continue
         if not fnmatch.fnmatchcase(label, k.get('label', '*')):
             continue
-        if not fnmatch.fnmatchcase(region or '', k.get('region', '*')):
+        regions = k.get('region', '*')
+        if isinstance(regions, str):
+            regions = [regions]
+        if not any(fnmatch.fnmatchcase(region or '', g) for g in regions):
             continue
         return k
     return None
